@@ -78,7 +78,26 @@ func vC14Pkg(fset *token.FileSet, pp *packages.Package) *pkgInfo {
 	return p
 }
 
+const vC14R = `package r
+
+type rErr struct{}
+
+func (rErr) Error() string { return "" }
+
+var ErrR error = rErr{}
+
+type R struct{}
+
+func (R) RM() error { return ErrR }
+
+func (R) RP() (int, error) { return 9, ErrR }
+`
+
 const vC14Q = `package q
+
+import "example.com/m/r"
+
+func NewR() r.R { return r.R{} }
 
 type qErr struct{}
 
@@ -134,6 +153,8 @@ func h2(fn func() error) (int, error) {
 	return 0, fn()
 }
 
+func h3(fn func() error) error { return fn() }
+
 func w(err error) error { return err }
 
 func w2(n int, err error) error { return err }
@@ -160,6 +181,12 @@ var vC14ErrBodies = []string{
 	"return q.QR()",
 	"_, err := q.QP()\n\treturn err",
 	"return qt.TM()",
+	"return h3(func() error { return E0() })",
+	"return h3(func() error { return E1() })",
+	"if errA != nil {\n\t\treturn errA\n\t}\n\treturn E1()",
+	"if errB != nil {\n\t\treturn errB\n\t}\n\treturn E0()",
+	"return q.NewR().RM()",
+	"_, _, _, err := N1()\n\treturn err",
 }
 
 // bodies of a `() (int, error)` function
@@ -177,6 +204,10 @@ var vC14PairBodies = []string{
 	"return 1 + 1, nil",
 	"return q.QP()",
 	"return 8, q.QE()",
+	"return h2(func() error { return E0() })",
+	"return q.NewR().RP()",
+	"if errA != nil {\n\t\treturn 5, errA\n\t}\n\treturn P1()",
+	"if errB != nil {\n\t\treturn 6, errB\n\t}\n\treturn P0()",
 }
 
 // bodies of a `() (r int, err error)` function
@@ -189,11 +220,22 @@ var vC14NamedBodies = []string{
 	"if errA != nil {\n\t\terr = errA\n\t\treturn\n\t}\n\treturn 7, nil",
 }
 
+// bodies of a `() (a, b int, s string, err error)` function (a grouped field followed by others)
+var vC14Named4Bodies = []string{
+	"a, b, s = 1, 2, \"s\"\n\treturn",
+	"return 1, 2, \"s\", nil",
+	"a = 3\n\ts = \"t\"\n\terr = E0()\n\treturn",
+	"return N1()",
+	"b, err = P0()\n\treturn",
+	"if errA != nil {\n\t\ts = \"u\"\n\t\treturn\n\t}\n\treturn 4, 5, \"v\", errA",
+}
+
 // what ResultsOf must print for the literal-only bodies ("" = not literal-only)
 var (
 	vC14ErrWant   = map[int]string{0: "(untyped nil)"}
 	vC14PairWant  = map[int]string{0: "(1, untyped nil)", 5: "(1 | 2, untyped nil | untyped nil)", 10: "(2, untyped nil)"}
-	vC14NamedWant = map[int]string{}
+	vC14NamedWant  = map[int]string{}
+	vC14Named4Want = map[int]string{1: "(1, 2, \"s\", untyped nil)"}
 )
 
 func vC14Func(name, sig, body string) string {
@@ -201,10 +243,10 @@ func vC14Func(name, sig, body string) string {
 }
 
 // vC14Check runs the generic part of the statement on function name.
-func vC14Check(p *pkgInfo, fn *types.Func, name string, want string) {
+func vC14Check(p *pkgInfo, fn *types.Func, name string, want string) string {
 	verifsym.Assert(fn != nil, "function "+name+" not found")
 	if fn == nil {
-		return
+		return ""
 	}
 	sig := fn.Type().(*types.Signature)
 	var res, res2 FuncResults
@@ -212,7 +254,7 @@ func vC14Check(p *pkgInfo, fn *types.Func, name string, want string) {
 	panicked := verifsym.Panics(func() { res, n = p.ResultsOf(fn) })
 	verifsym.Assert(!panicked, "ResultsOf("+name+") panics")
 	if panicked {
-		return
+		return ""
 	}
 	verifsym.Assert(n == sig.Results().Len(), "ResultsOf("+name+"): n is not the declared number of results")
 	verifsym.Assert(len(res) == n, "ResultsOf("+name+"): not one list of alternatives per result")
@@ -239,20 +281,39 @@ func vC14Check(p *pkgInfo, fn *types.Func, name string, want string) {
 	if !panicked {
 		verifsym.Assert(n2 == n && res2.String() == s1, "ResultsOf("+name+") differs on the second call: "+s1+" then "+res2.String())
 	}
+	return s1
+}
+
+// vC14World is a three-package module r <- q <- p, indexed by the real newPkg
+// inside one universe.
+type vC14World struct {
+	p, q, r *pkgInfo
+}
+
+func vC14Index(fset *token.FileSet, pp, qq, rr *packages.Package) *vC14World {
+	pkgs := map[string]Package{}
+	u := VerifNewUniverse(fset, pkgs, map[string]bool{pp.PkgPath: true, qq.PkgPath: true, rr.PkgPath: true}, nil, "")
+	w := &vC14World{}
+	w.r = newPkg(rr, u).(*pkgInfo)
+	pkgs[rr.PkgPath] = w.r
+	w.q = newPkg(qq, u).(*pkgInfo)
+	pkgs[qq.PkgPath] = w.q
+	w.p = newPkg(pp, u).(*pkgInfo)
+	pkgs[pp.PkgPath] = w.p
+	return w
 }
 
 // Verif_C14_ResultsOf: the functions E0 E1 (() error), P0 P1 (() (int, error)),
-// N0 (named results) get bodies from the menus. `sym` selects which of the
-// five are chosen symbolically (bit i = function i; the others get body
-// `fix`-th of a fixed rotation), so the quick tier explores all pairs and the
-// thorough tier all triples of simultaneously varying functions.
+// N0 (named results), N1 (a grouped named field followed by two more) get
+// bodies from the menus. `sym` selects which are chosen symbolically (bit i =
+// function i; the others get the body of the `fix`-th fixed rotation).
 func Verif_C14_ResultsOf(sym int, fix int) {
-	names := []string{"E0", "E1", "P0", "P1", "N0"}
-	sigs := []string{"error", "error", "(int, error)", "(int, error)", "(r int, err error)"}
-	menus := [][]string{vC14ErrBodies, vC14ErrBodies, vC14PairBodies, vC14PairBodies, vC14NamedBodies}
-	wants := []map[int]string{vC14ErrWant, vC14ErrWant, vC14PairWant, vC14PairWant, vC14NamedWant}
-	// fixed rotation: bodies that call into the symbolic ones
-	fixed := [][]int{{3, 2, 3, 2, 4}, {1, 6, 6, 4, 2}, {4, 8, 2, 9, 3}}
+	names := []string{"E0", "E1", "P0", "P1", "N0", "N1"}
+	sigs := []string{"error", "error", "(int, error)", "(int, error)", "(r int, err error)", "(a, b int, s string, err error)"}
+	menus := [][]string{vC14ErrBodies, vC14ErrBodies, vC14PairBodies, vC14PairBodies, vC14NamedBodies, vC14Named4Bodies}
+	wants := []map[int]string{vC14ErrWant, vC14ErrWant, vC14PairWant, vC14PairWant, vC14NamedWant, vC14Named4Want}
+	// fixed rotations: bodies that call into the symbolic ones
+	fixed := [][]int{{3, 2, 3, 2, 4, 3}, {1, 6, 6, 4, 2, 2}, {4, 8, 2, 9, 3, 4}, {20, 21, 15, 16, 5, 5}}
 	choice := make([]int, len(names))
 	src := vC14Prelude
 	for i := range names {
@@ -265,33 +326,68 @@ func Verif_C14_ResultsOf(sym int, fix int) {
 	}
 	verifsym.Observe("choice", choice)
 	fset := token.NewFileSet()
-	qq := vCheckSource(fset, "example.com/m/q", "q", "/src/m/q/q.go", vC14Q, nil)
+	rr := vCheckSource(fset, "example.com/m/r", "r", "/src/m/r/r.go", vC14R, nil)
+	qq := vCheckSource(fset, "example.com/m/q", "q", "/src/m/q/q.go", vC14Q, vImporter{"example.com/m/r": rr.Types})
+	qq.Imports = map[string]*packages.Package{"example.com/m/r": rr}
+	// p imports q only: r is reached through q.NewR()
 	pp := vCheckSource(fset, "example.com/m/p", "p", "/src/m/p/p.go", src, vImporter{"example.com/m/q": qq.Types})
 	pp.Imports = map[string]*packages.Package{"example.com/m/q": qq}
-	pkgs := map[string]Package{}
-	u := VerifNewUniverse(fset, pkgs, map[string]bool{pp.PkgPath: true, qq.PkgPath: true}, nil, "")
-	pq := newPkg(qq, u).(*pkgInfo)
-	pkgs[qq.PkgPath] = pq
-	p := newPkg(pp, u).(*pkgInfo)
-	pkgs[pp.PkgPath] = p
-	// the imported package's functions: asked of their own package and of the importer
-	for _, name := range []string{"QE", "QP", "QR"} {
-		vC14Check(pq, pq.Function(name), "q."+name, "")
-		vC14Check(p, pq.Function(name), "q."+name+" (asked of p)", "")
+
+	w := vC14Index(fset, pp, qq, rr)
+	p := w.p
+	type asked struct {
+		of   *pkgInfo
+		fn   *types.Func
+		name string
+		want string
+	}
+	var all []asked
+	// the imported packages' functions: asked of their own package and of the importer
+	for _, name := range []string{"QE", "QP", "QR", "NewR"} {
+		all = append(all, asked{w.q, w.q.Function(name), "q." + name, ""}, asked{p, w.q.Function(name), "q." + name + " (asked of p)", ""})
 	}
 	for i, name := range names {
-		vC14Check(p, p.Function(name), name, wants[i][choice[i]])
+		all = append(all, asked{p, p.Function(name), name, wants[i][choice[i]]})
 	}
-	for _, name := range []string{"h", "h2", "w", "w2"} {
-		vC14Check(p, p.Function(name), name, "")
+	for _, name := range []string{"h", "h2", "h3", "w", "w2"} {
+		all = append(all, asked{p, p.Function(name), name, ""})
 	}
-	// methods are functions of the package too: the interface's and the declared one
+	// methods are functions of the package too: the interface's and the declared ones
 	it := p.Pkg().Scope().Lookup("I").Type().Underlying().(*types.Interface)
 	for i := 0; i < it.NumMethods(); i++ {
-		vC14Check(p, it.Method(i), "I."+it.Method(i).Name(), "")
+		all = append(all, asked{p, it.Method(i), "I." + it.Method(i).Name(), ""})
 	}
 	for _, m := range p.MethodsOf(p.Pkg().Scope().Lookup("myErr").Type().(*types.Named), false) {
-		vC14Check(p, m, "myErr."+m.Name(), "")
+		all = append(all, asked{p, m, "myErr." + m.Name(), ""})
+	}
+	// (MethodsOf lists in Defs order: ask in name order)
+	for _, mn := range []string{"RM", "RP"} {
+		for _, m := range w.r.MethodsOf(w.r.Pkg().Scope().Lookup("R").Type().(*types.Named), false) {
+			if m.Name() == mn {
+				all = append(all, asked{w.r, m, "r.R." + m.Name(), ""})
+			}
+		}
+	}
+	first := make([]string, len(all))
+	for i, a := range all {
+		first[i] = vC14Check(a.of, a.fn, a.name, a.want)
+	}
+	// "the answer is the same on every call": a freshly indexed universe asked in
+	// the opposite order must give the same answers (no answer may depend on what
+	// was asked before)
+	w2 := vC14Index(fset, pp, qq, rr)
+	for i := len(all) - 1; i >= 0; i-- {
+		a := all[i]
+		of := w2.p
+		if a.of == w.q {
+			of = w2.q
+		} else if a.of == w.r {
+			of = w2.r
+		}
+		var res FuncResults
+		if !verifsym.Panics(func() { res, _ = of.ResultsOf(a.fn) }) {
+			verifsym.Assert(res.String() == first[i], "ResultsOf("+a.name+") depends on what was asked before: "+first[i]+" in one order, "+res.String()+" in a fresh universe asked in the opposite order")
+		}
 	}
 	verifsym.Reach("end")
 }
